@@ -203,6 +203,10 @@ def build(v, env, ghost_fn):
             return None
         if '$obj' in v:
             cls = _cls(v['$obj'])
+            if getattr(cls, '__standin_abstract__', False):
+                if 'id' in v:
+                    env[v['id']] = None
+                return None         # C07: an abstract program / analysis; replaced by a candidate (replay())
             import inspect as _inspect
             if _inspect.isabstract(cls) and cls.__name__ == 'Context':
                 # an ARBITRARY rounding context (C20): a concrete stand-in chosen by replay()
@@ -263,6 +267,10 @@ def show(v, depth=0):
     try:
         if type(v).__name__ == '_Env':
             return f'_Env(env={v.env!r}, terminated={v.terminated})'
+        if type(v).__name__ == '_DeadCodeEliminate':
+            return f'_DeadCodeEliminate(func={show(v.func)})'
+        if type(v).__name__ == 'FuncDefM':
+            return 'FuncDef<' + ' ; '.join(v.format().split('\n')[1:]) + '>'
         if type(v).__name__ == '_Ctx':
             return f'_Ctx(env={show(v.env)}, within_call={v.within_call})'
         return repr(v)
@@ -282,10 +290,27 @@ def candidate_contexts(doc, C):
 
 def replay(doc, ghost_override=None):
     """replay once; when the inputs contain an arbitrary context, once per concrete stand-in (first violation wins)"""
+    cmod = importlib.import_module(doc['contract_module'])
+    cands = getattr(getattr(cmod, doc['contract']), 'native_candidates', None)
+    if cands:
+        # C07: the counterexample is an ABSTRACT program (def-use structure); search the contract's family of
+        # real candidate programs for one that violates the contract (first violation wins)
+        first = None
+        for i, cand in enumerate(_cls(cands)(doc)):
+            try:
+                out, code = replay_with(doc, None, ghost_override, cand=cand)
+            except Exception as e:
+                out, code = {'verdict': 'harness-error', 'error': f'{type(e).__name__}: {e}',
+                             'traceback': traceback.format_exc()[-1500:]}, 3
+            out['candidate'] = i
+            if code == 1:
+                return out, code
+            if first is None or (first[1] == 3 and code == 0):
+                first = (out, code)
+        return first
     out, code = replay_with(doc, None, ghost_override)
     if not out.get('abstract_ctx'):
         return out, code
-    cmod = importlib.import_module(doc['contract_module'])
     first = None
     for cand in candidate_contexts(doc, getattr(cmod, doc['contract'])):
         try:
@@ -300,7 +325,7 @@ def replay(doc, ghost_override=None):
     return first
 
 
-def replay_with(doc, ctx_standin, ghost_override=None):
+def replay_with(doc, ctx_standin, ghost_override=None, cand=None):
     import speclib
     ghost_fn = make_ghost(doc.get('ghost'))
     speclib.GHOST.clear()
@@ -315,7 +340,7 @@ def replay_with(doc, ctx_standin, ghost_override=None):
     env = {'__ctx__': ctx_standin}
     global _KB
     _KB = KeyBuilder(doc)
-    pending = dict(doc['args'])
+    pending = {k: v for k, v in doc['args'].items() if cand is None or k not in cand}
     built = {}
     for _ in range(len(pending) + 1):          # a '$ref' may point at an argument built later
         for k in list(pending):
@@ -326,7 +351,7 @@ def replay_with(doc, ctx_standin, ghost_override=None):
                 pass
     if pending:
         raise KeyError(f'unresolved $ref in arguments {sorted(pending)}')
-    args = {k: built[k] for k in doc['args']}
+    args = {k: (cand[k] if cand is not None and k in cand else built[k]) for k in doc['args']}
     if _KB.memo:
         # C15: ghosts over AST nodes mean the reference rule set on the real objects; forall_keys ranges
         # over every key built from the model plus two names that occur nowhere
@@ -334,6 +359,10 @@ def replay_with(doc, ctx_standin, ghost_override=None):
         from fpy2.utils import NamedId
         speclib.GHOST.update(c15_ref.GHOSTS)
         speclib.KEY_UNIVERSE[:] = _KB.all_keys() + [NamedId('zz_unused_a'), NamedId('zz_unused_b')]
+    if getattr(C, 'native_ghosts', None):
+        # C07: ghosts read off the real analyses; forall_keys ranges over the nodes / definitions of the program
+        speclib.GHOST.update(_cls(C.native_ghosts))
+        speclib.KEY_UNIVERSE[:] = _cls(C.native_universe)(args)
     out = {'contract': doc['contract'], 'obligation': doc.get('obligation'), 'inputs': {k: show(v) for k, v in args.items()}}
     if env.get('__used_ctx__') and ctx_standin is None:
         out['abstract_ctx'] = True
@@ -453,6 +482,11 @@ def replay_with(doc, ctx_standin, ghost_override=None):
             failed.append(f'raises[{key}]')
     else:
         out['result'] = show(outcome[1])
+        if getattr(C, 'native_demo', None):
+            try:
+                out['demo'] = _cls(C.native_demo)(args, outcome[1])
+            except Exception as e:
+                out['demo'] = f'{type(e).__name__}: {e}'
         for k, v in rz.items():
             if v:
                 failed.append(f'noraise[{k}]')
